@@ -79,7 +79,7 @@ Definition nthr (i : nat) (M : mat) : vec := nth i M [].
 (* the tolerances (all relative; T = trace of the sample covariance) *)
 Definition tol_sum : F := tolp 45.     (* float summation / division of the mean, of the ratio *)
 Definition tol_acc : F := tolp 50.     (* two roundings of sigma^2/(n-1) *)
-Definition tol_dot : F := tolp 48.     (* a dot product of <= 8 terms after one subtraction *)
+Definition tol_dot : F := tolp 48.     (* a dot product of <= 10 terms after one subtraction: 11 roundings of 2^-53 < 2^-49 *)
 Definition d_orth : F := tolp 20.      (* orthonormality, Ritz values, whitened covariance *)
 Definition d_res : F := tolp 23.       (* eigen-residual (relative to T * |w|_1) *)
 Definition d_lead : F := tolp 17.      (* slack of the deflation certificate (relative to T) *)
